@@ -114,11 +114,23 @@ impl<'a, I: Iterator<Item = Item>, F: StreamFilter + 'a> CompactionStream<'a, I,
     }
 
     /// Drains the remaining versions of the given key.
-    fn drain_key(&mut self, key: &UserKey) -> crate::Result<()> {
+    ///
+    /// Draining stops in front of a weak tombstone (`keep_weak_tombstones`) or in front of any
+    /// tombstone (`keep_tombstones`), which then becomes the next head of the stream.
+    fn drain_key(
+        &mut self,
+        key: &UserKey,
+        keep_weak_tombstones: bool,
+        keep_tombstones: bool,
+    ) -> crate::Result<()> {
         loop {
             let Some(next) = self.inner.next_if(|kv| {
                 if let Ok(kv) = kv {
-                    let expired = kv.key.user_key == key;
+                    let keep = (keep_tombstones && kv.is_tombstone())
+                        || (keep_weak_tombstones
+                            && kv.key.value_type == ValueType::WeakTombstone);
+
+                    let expired = kv.key.user_key == key && !keep;
 
                     if expired {
                         if let Some(watcher) = &mut self.dropped_callback {
@@ -190,7 +202,7 @@ impl<'a, I: Iterator<Item = Item>, F: StreamFilter + 'a> Iterator for Compaction
                     // ...
                 } else if peeked.key.seqno < self.gc_seqno_threshold {
                     if head.key.value_type == ValueType::Tombstone && self.evict_tombstones {
-                        fail_iter!(self.drain_key(&head.key.user_key));
+                        fail_iter!(self.drain_key(&head.key.user_key, false, false));
                         continue;
                     }
 
@@ -201,7 +213,19 @@ impl<'a, I: Iterator<Item = Item>, F: StreamFilter + 'a> Iterator for Compaction
 
                     // NOTE: Next item is expired,
                     // so the tail of this user key is entirely expired, so drain it all
-                    fail_iter!(self.drain_key(&head.key.user_key));
+                    //
+                    // ... except for tombstones that may still be needed to shadow data in lower levels:
+                    // a weak tombstone and its value cancel each other out, so an older (weak) tombstone
+                    // beneath them must survive; and a weak tombstone beneath a value must survive
+                    // because that value may itself be cancelled out by a later weak tombstone
+                    let keep_tombstones = drop_weak_tombstone && !self.evict_tombstones;
+                    let keep_weak_tombstones = !head.is_tombstone() && !self.evict_tombstones;
+
+                    fail_iter!(self.drain_key(
+                        &head.key.user_key,
+                        keep_weak_tombstones,
+                        keep_tombstones
+                    ));
 
                     if drop_weak_tombstone {
                         continue;
